@@ -374,7 +374,7 @@ def rule_slice(ctx):
             raise AnalysisError("%s: `i_l, i_u, ws = self.weights(...)` not found" % fname)
         il, iu, wn = [norm(e_) for e_ in wst.targets[0].elts]
         wcall = norm(wc[0])
-        xsel, wsel = [], []
+        xsel, wsel, wrong_x = [], [], []
         for st in flow.stmts:
             if not isinstance(st, ast.Assign):
                 continue
@@ -384,9 +384,16 @@ def rule_slice(ctx):
                     base = norm(r_.value).replace(" ", "")
                     if base == "self.x[%s:%s]" % (il, iu):
                         xsel.append((st, r_.slice))
+                    elif (base == "self.x" or base.startswith("self.x[")) and not isinstance(r_.slice, (ast.Slice, ast.Constant)) \
+                            and any(isinstance(n_, ast.Attribute) and n_.attr == "x_sorted_inds" for n_ in ast.walk(r_.slice)):
+                        wrong_x.append((st, norm(r_)[:80]))
                     elif isinstance(r_.value, ast.Subscript) and isinstance(r_.value.slice, ast.Constant) and r_.value.slice.value == 2 \
                             and isinstance(r_.value.value, ast.Call) and norm(r_.value.value.func) == "self.weights":
                         wsel.append((st, r_.slice))
+        if wrong_x and not xsel:
+            ctx.ob("BMCI.%s.window_view" % fname, False, "x values selected as %s" % wrong_x[0][1],
+                   "xs = self.x[i_l:i_u][inds]: the shifted indices address the window, not the whole database", node=wrong_x[0][0], func=f)
+            continue
         if len(xsel) != 1 or len(wsel) != 1:
             raise AnalysisError("%s: expected one selection from self.x[i_l:i_u] and one from the weights (found %d / %d)" % (fname, len(xsel), len(wsel)))
         kx, kw_ = xsel[0][1], wsel[0][1]
